@@ -139,6 +139,45 @@ pub enum RunKind {
     Wide,
     /// one process, thousands of calls, call granularity
     Long { calls: usize },
+    /// "stall and wrap": one caller is parked in the middle of a call while another performs 2^k + d distinct calls
+    /// of the same evaluator (a generation counter, ticket or epoch wraps), the parked call then finishes, and the
+    /// busy caller repeats its most recent calls. The pool is a filler pool: entry i is the i-th distinct call.
+    StallWrap { base: usize },
+}
+
+/// the stall-and-wrap run over a filler pool (entries 0..n are distinct calls of one evaluator)
+fn stall_wrap_spec(pool: &Pool, seed: u64, base: usize) -> RunSpec {
+    let mut r = Rng::new(mix(seed, 0x7374_616c));
+    let n = pool.entries.len();
+    // number of distinct calls made while the victim is parked: base - 8 ..= base + 72, as far as the pool allows
+    let w = (base + r.below(81)).saturating_sub(8).min(n.saturating_sub(3)).max(1);
+    let mut busy: Vec<u32> = (0..w as u32).collect();
+    // then the most recent calls again (what a wrapped ticket / recycled slot would have corrupted)
+    let back = 70.min(w);
+    busy.extend((w - back..w).rev().map(|i| i as u32));
+    let victim_entry = (w + 1).min(n - 1) as u32;
+    let victim_ticks = pool.entries[victim_entry as usize].ticks.max(1) as usize;
+    let t0 = 1 + r.below(victim_ticks) as u32;
+    // clients: 0 = busy, 1 = victim (two calls: the parked one and a repeat of it)
+    let clients = vec![busy, vec![victim_entry, victim_entry]];
+    let switches = vec![
+        crate::sim::Sw { thread: 1, call: 0, tick: t0, to: 0 },
+        crate::sim::Sw { thread: 0, call: w as u32, tick: 0, to: 1 },
+    ];
+    RunSpec {
+        seed,
+        clients,
+        churn: vec![vec![], vec![]],
+        policy: Policy::Replay,
+        start: 1,
+        switches,
+        est_steps: 0,
+        want_trace: false,
+        faults_enabled: vec!["stall_and_wrap"],
+        clock_jumps: vec![vec![], vec![]],
+        stack_depths: vec![vec![], vec![]],
+        cpu_limits: vec![0, 0],
+    }
 }
 
 pub const FAULT_NAMES: [&str; 10] = [
@@ -182,11 +221,15 @@ fn pick_policy(r: &mut Rng, nthreads: usize, kind: RunKind, allow_intra: bool) -
 }
 
 pub fn make_spec(pool: &Pool, ix: &PoolIndex, seed: u64, kind: RunKind, allow_intra: bool) -> RunSpec {
+    if let RunKind::StallWrap { base } = kind {
+        return stall_wrap_spec(pool, seed, base);
+    }
     let mut r = Rng::new(mix(seed, 0x776f_726b));
     let nthreads = match kind {
         RunKind::Short => [1usize, 2, 2, 2, 2, 3, 3, 3, 4, 4][r.below(10)],
         RunKind::Wide => 16,
         RunKind::Long { .. } => [1usize, 1, 2, 4, 16][r.below(5)],
+        RunKind::StallWrap { .. } => 2,
     };
     // swarm: enabled fault kinds for this run
     let f1 = r.chance(0.6) && !ix.err.is_empty();
@@ -197,6 +240,9 @@ pub fn make_spec(pool: &Pool, ix: &PoolIndex, seed: u64, kind: RunKind, allow_in
     let f8 = r.chance(0.3);
     let f9 = r.chance(0.25);
     let f10 = r.chance(0.2);
+    // experiment knob (never set by the registered checks): SC_DISABLE_FAULTS=F6,F8,F9,F10
+    let off = std::env::var("SC_DISABLE_FAULTS").unwrap_or_default();
+    let (f6, f8, f9, f10) = (f6 && !off.contains("F6"), f8 && !off.contains("F8"), f9 && !off.contains("F9"), f10 && !off.contains("F10"));
     let mut faults_enabled: Vec<&'static str> = Vec::new();
     for (on, name) in [(f1, "F1"), (f2, "F2"), (f3, "F3+F7_theme"), (f4, "F4"), (f6, "F6"), (f8, "F8"), (f9, "F9"), (f10, "F10")] {
         if on {
@@ -285,6 +331,7 @@ pub fn make_spec(pool: &Pool, ix: &PoolIndex, seed: u64, kind: RunKind, allow_in
             }
             RunKind::Wide => r.range(1, 6),
             RunKind::Long { .. } => (total_calls_long / nthreads).max(1),
+            RunKind::StallWrap { .. } => 1,
         };
         let mut calls: Vec<u32> = Vec::with_capacity(ncalls);
         while calls.len() < ncalls {
@@ -409,8 +456,8 @@ pub fn make_spec(pool: &Pool, ix: &PoolIndex, seed: u64, kind: RunKind, allow_in
             // the caller's stack depth at the moment of the call: most calls from the thread's base, some from a frame
             // kilobytes to megabytes further down (the library must not care where on the stack its caller lives)
             for k in 0..ncalls {
-                if r.chance(if ncalls > 100 { 0.02 } else { 0.3 }) {
-                    ds.push((k as u32, [4u32, 64, 512, 1200, 1200, 2048, 4096, 8192][r.below(8)]));
+                if r.chance(if ncalls > 100 { 0.02 } else { 0.25 }) {
+                    ds.push((k as u32, [32u32, 64, 256, 512, 1200, 1200, 2048, 4096, 8192][r.below(9)]));
                 }
             }
         }
